@@ -1,6 +1,7 @@
 """C20 — layout object properties round-trip and do not interfere
 (mptplot/layout/*_property.c, color_*.c, lattr_set.c, string_set.c, mptcore/object/{object_set_string,
-object_set_value,object_set_property,property_match}.c, mpt++/layout.cpp, mpt++/graph.cpp)."""
+object_set_value,object_set_property,property_match}.c, mpt++/layout.cpp, mpt++/graph.cpp; with them mpt++/item_group.cpp and
+the parts of object.cpp / collection.cpp / cycle.cpp that layout files, copies by properties and bound worlds go through)."""
 import hashlib, os, re, subprocess
 import vcheck
 from vcheck import DiffProperty
@@ -62,6 +63,34 @@ INT_VALS = {"b": [-128, -1, 0, 1, 33, 65, 127], "y": [0, 1, 5, 6, 8, 9, 10, 11, 
             "q": [0, 255, 256, 32767, 32768, 65535], "i": [-2147483648, -32769, -1, 0, 7, 255, 256, 32768, 65536, 16777217, 2147483647],
             "u": [0, 255, 256, 65536, 2147483648, 4294967295], "x": [-9223372036854775808, -2147483649, -1, 0, 255, 256, 4294967296, 9223372036854775807],
             "t": [0, 255, 256, 4294967295, 4294967296, 9223372036854775808, 18446744073709551615]}
+
+
+# ---- switches for proposed patches (docs/C20_<topic>.diff): set to True after the patch is committed in /repo; the model is
+# AS PATCHED, the generator cases that tell the difference are left out until then ----
+# graph "grid" takes the number it shows ('y') when the source is no character: values 0..255 outside the visible
+# characters, and every copy of a graph by its properties (object::set: oset on graphs, `graph x : y` in a layout file)
+PATCHED_GRID_BY_VALUE = True
+# the whole-object query (property "") of axis / world / graph compares the struct members, not the tail padding
+PATCHED_TOTAL_PADDING = True
+# layout::graph::cycle / set_cycle with a position behind the bound worlds
+PATCHED_CYCLE_RANGE = True
+# docs/C07_convert_string_space.diff (mptcore/convert/convert_string.c: white space only = nothing converted): a blank text
+# then resets a numeric / character / attribute property like the empty text does instead of leaving it as it is.
+# The model is as patched; while False no blank (white-space-only) text is generated for such properties and the
+# corpus cases with one are skipped.
+PATCHED_STRING_SPACE = True
+
+
+def blank_tok(tok):
+    """T token (or layout entry holding one) whose text is not empty and white space only"""
+    m = re.search(r"(?:^|:)T([0-9a-f]+)(?:~|$)", tok)
+    if not m:
+        return False
+    try:
+        t = bytes.fromhex(m.group(1))
+    except ValueError:
+        return False
+    return len(t) > 0 and all(c in b" \t\n\v\f\r" for c in t)
 
 
 def name_variants(rng, n):
@@ -178,6 +207,8 @@ class C20(DiffProperty):
         """property level view: error kinds are not constrained; the return value of the by-name x / y lookup of a
         text is not a property value"""
         head, sep, rest = tok.partition("|")
+        if head[:1] in ("L", "W"):
+            head = self.STAR_XY.sub(r",\1=\2", head)      # views of items: the same rule for the x / y of a text
         if re.fullmatch(r"E\d*", head):
             head = "R"
         elif head == "qE":
@@ -190,17 +221,21 @@ class C20(DiffProperty):
             rest = self.STAR_XY.sub(r",\1=\2", rest)
         return head + sep + rest
 
-    ARITY = {"set": 3, "get": 2, "sp": 4, "clone": 1, "cpy": 1, "cset": 3, "conv": 2, "lreset": 1, "gadd": 3, "gitem": 5, "gbind": 1, "gtr": 1}
+    ARITY = {"set": 3, "get": 2, "sp": 4, "clone": 1, "cpy": 1, "cset": 3, "conv": 2, "lreset": 1, "gadd": 3, "gitem": 5, "gbind": 1, "gtr": 1,
+             "oset": 2, "tot": 1, "pinfo": 1, "gview": 1, "gcyc": 2, "gscyc": 2, "gbindl": 1, "gbindo": 1, "lagain": 1, "lopen": 2}
 
     def split(self, case):
         t = case.split()
-        if t[1] in ("pm", "col"):
+        if t[1] in ("pm", "col", "lat"):
             return t, []
         hdr, rest = t[:2], t[2:]
         ops = []
         i = 0
         while i < len(rest):
-            n = self.ARITY.get(rest[i], 0)
+            if rest[i] == "lload" and i + 2 < len(rest) + 1:
+                n = 2 + int(rest[i + 2])      # target, count, entries
+            else:
+                n = self.ARITY.get(rest[i], 0)
             ops.append(rest[i:i + n + 1])
             i += n + 1
         return hdr, ops
@@ -218,7 +253,40 @@ class C20(DiffProperty):
             yield self.join(hdr, ops[:k])
         if len(ops) > 4:
             yield self.join(hdr, ops[len(ops) // 2:])
-        if hdr[0] == "x":
+        # layout files: drop one section (with what is inside) or one property entry
+        for k, o in enumerate(ops):
+            if o[0] != "lload":
+                continue
+            ents = o[3:]
+            spans = []
+            i = 0
+            while i < len(ents):
+                if ents[i].startswith("i:"):
+                    depth, j = 1, i + 1
+                    while j < len(ents) and depth:
+                        depth += 1 if ents[j].startswith("i:") else (-1 if ents[j] == "e" else 0)
+                        j += 1
+                    spans.append((i, j))
+                    inner = i + 1
+                    while inner < j - 1:       # entries inside the section, one at a time (nested sections as a whole)
+                        if ents[inner].startswith("i:"):
+                            d2, j2 = 1, inner + 1
+                            while j2 < j and d2:
+                                d2 += 1 if ents[j2].startswith("i:") else (-1 if ents[j2] == "e" else 0)
+                                j2 += 1
+                            spans.append((inner, j2))
+                            inner = j2
+                        else:
+                            spans.append((inner, inner + 1))
+                            inner += 1
+                    i = j
+                else:
+                    spans.append((i, i + 1))
+                    i += 1
+            for (a, b) in spans:
+                rest = ents[:a] + ents[b:]
+                yield self.join(hdr, ops[:k] + [o[:2] + [str(len(rest))] + rest] + ops[k + 1:])
+        if hdr[0] == "x" and hdr[1] != "layout":
             yield self.join(["c", hdr[1]], ops)
 
     def classify(self, case):
@@ -244,8 +312,38 @@ class C20(DiffProperty):
             return "T" + h, None
         return "T" + h, "T " + h
 
-    def gen_sources(self, rng, ftype, tier):
+    def gen_sources(self, rng, ftype, tier, grid=False):
         """list of source tokens (oracle placeholders resolved later): (token, oracle query or None)"""
+        out = self.gen_sources0(rng, ftype, tier)
+        if grid and not PATCHED_GRID_BY_VALUE:
+            # numbers that are no visible character: refused by the tree as it is, accepted as patched
+            def changed(tok):
+                m = re.match(r"V[bynqiuxt]:(-?\d+)$", tok)
+                return bool(m) and 0 <= int(m.group(1)) <= 255 and not (33 <= int(m.group(1)) <= 126)
+            out = [x for x in out if not changed(x[0])]
+        if not PATCHED_STRING_SPACE and ftype not in ("str", "col"):
+            out = [x for x in out if not blank_tok(x[0])]
+        return out
+
+    def corpus(self):
+        """regression cases; a line `#~<topic> <case>` is a case that needs the patch of that topic in the tree"""
+        gate = {"grid": PATCHED_GRID_BY_VALUE, "total": PATCHED_TOTAL_PADDING, "cycle": PATCHED_CYCLE_RANGE, "space": PATCHED_STRING_SPACE}
+        d = os.path.join(vcheck.VERIF, "corpus", self.pid)
+        cs = []
+        for f in sorted(os.listdir(d)) if os.path.isdir(d) else []:
+            for line in open(os.path.join(d, f)):
+                line = line.strip()
+                m = re.match(r"#~(\w+) +(.*)$", line)
+                if m:
+                    if gate.get(m.group(1)):
+                        cs.append(m.group(2))
+                elif line and not line.startswith("#"):
+                    cs.append(line)
+        if not PATCHED_STRING_SPACE:
+            cs = [c for c in cs if not any(blank_tok(t) for t in c.split())]
+        return cs
+
+    def gen_sources0(self, rng, ftype, tier):
         out = []
         floaty = ftype in FLOATY
 
@@ -371,6 +469,107 @@ class C20(DiffProperty):
             items.append((["set", "a", hx(n), t], qq))
         return items
 
+
+    # ------------------------------------------------------------------ layout files
+    UNSAFE = set("{};'\"!=\\")
+
+    def file_safe(self, tok):
+        """a T token whose text a layout file can hold as it is: visible ASCII and single inner blanks, not empty"""
+        h = tok[1:]
+        if h in ("N", "-"):
+            return False
+        try:
+            t = bytes.fromhex(h).decode("latin-1")
+        except ValueError:
+            return False
+        if not t or t != t.strip() or len(t) > 120:
+            return False
+        return all((33 <= ord(c) <= 126 and c not in self.UNSAFE) or c == " " for c in t) and "  " not in t
+
+    def layout_case(self, rng, val_items):
+        """one case on class layout: a file of sections and properties, loaded; reloads, resets"""
+        TYPES = ["line", "text", "axis", "xaxis", "yaxis", "zaxis", "world", "graph"]
+        kind_of = {"line": "line", "text": "text", "axis": "axis", "xaxis": "axis", "yaxis": "axis", "zaxis": "axis", "world": "world", "graph": "graph"}
+        POOL = ["a1", "a2", "w1", "w2", "l1", "t1", "t2", "g1", "g2", "sp aced"]
+
+        def props_of(kind, n):
+            out = []
+            for (nm, t, qq) in val_items(kind, n, safe=True):
+                out.append(("p:%s:%s" % (hx(nm), t), qq))
+            if rng.random() < 0.15:
+                out.append(("p:%s:T-" % hx(rng.choice(PROPS[kind])[1][0]), []))
+            if rng.random() < 0.1:
+                out.append(("p:%s:T%s" % (hx("nosuch"), hx("1")), []))
+            return out
+
+        def section(level, made):
+            ty = rng.choice(TYPES + (["bogus"] if rng.random() < 0.1 else []))
+            name = rng.choice(POOL)
+            key = ty + " " + name
+            same = [n for (n, t) in made if kind_of.get(t) == kind_of.get(ty)]
+            inherit_ok = PATCHED_GRID_BY_VALUE or kind_of.get(ty) != "graph"
+            if rng.random() < 0.35 and inherit_ok:
+                ps = [rng.choice(same)] if same and rng.random() < 0.85 else [rng.choice(POOL)]
+                if same and rng.random() < 0.3:
+                    ps.append(rng.choice(same))
+                key += rng.choice([" : ", ":", " :", ": "]) + " ".join(ps)
+            ents = [("i:" + hx(key), [])]
+            kind = kind_of.get(ty)
+            if kind:
+                ents += props_of(kind, rng.choice([0, 1, 2, 4]))
+                if kind == "graph":
+                    names = [n for (n, t) in made if " " not in n]
+                    if rng.random() < 0.5:
+                        ws = [rng.choice(names + ["a1", "none", "a1.", "g1.a1"]) for _ in range(rng.choice([1, 2]))]
+                        ents.append(("p:%s:T%s" % (hx(rng.choice(["axes", "worlds"])), hx(" ".join(ws))), []))
+                    if level == 0:
+                        sub = []
+                        for _ in range(rng.choice([0, 0, 1, 2, 3])):
+                            e, nm, t = section(1, sub + made)
+                            ents += e
+                            sub.append((nm, t))
+                        if sub and rng.random() < 0.5:
+                            ws = [rng.choice([n for (n, t) in sub]) for _ in range(rng.choice([1, 2]))]
+                            ents.append(("p:%s:T%s" % (hx(rng.choice(["axes", "worlds"])), hx(" ".join(w for w in ws if " " not in w) or "a1")), []))
+            ents.append(("e", []))
+            return ents, name, ty
+
+        def a_file():
+            ents = []
+            made = []
+            for _ in range(rng.choice([0, 1, 2, 4, 6])):
+                if rng.random() < 0.15:
+                    nm = rng.choice(["name", "alias", "font", "nosuch", "Name"])
+                    ents.append(("p:%s:T%s" % (hx(nm), rng.choice([hx("lay1"), hx("f f"), "-"])), []))
+                    continue
+                e, nm, t = section(0, made)
+                ents += e
+                made.append((nm, t))
+            return ents
+
+        ops = []
+        if rng.random() < 0.1:
+            ops.append((["lopen", "a", rng.choice(["N", "X"])], []))
+        if rng.random() < 0.05:
+            ops.append((["lagain", "a"], []))
+        for _ in range(rng.choice([1, 1, 1, 2])):
+            tg = rng.choice(["a", "a", "b"])
+            if rng.random() < 0.04:
+                ops.append((["lload", tg, "1", "r:" + hx("}")], []))
+                continue
+            ents = a_file()
+            toks = [e for e, _ in ents]
+            qs = [q for _, qq in ents for q in qq]
+            ops.append((["lload", tg, str(len(toks))] + toks, qs))
+            r = rng.random()
+            if r < 0.15:
+                ops.append((["lagain", tg], []))
+            elif r < 0.3:
+                ops += [(["lreset", tg], []), (["lagain", tg], [])]
+            elif r < 0.35:
+                ops.append((["lreset", tg], []))
+        return ops
+
     def generate(self, rng, tier):
         quick = tier == "quick"
         items = []    # (template, queries)
@@ -387,7 +586,7 @@ class C20(DiffProperty):
         for kind in KINDS:
             pre = self.prefill(kind)
             for listed, names, ftype in PROPS[kind]:
-                srcs = self.gen_sources(rng, ftype, tier)
+                srcs = self.gen_sources(rng, ftype, tier, grid=(kind == "graph" and listed == "grid"))
                 variants = []
                 for n in names:
                     variants += name_variants(rng, n)
@@ -401,14 +600,14 @@ class C20(DiffProperty):
                         add("x", kind, (pre if k % 4 == 1 else []) + ops)
                 # name variants / unknown names with one plain value
                 for nm in variants + [names[0] + "x", names[0][:-1], " " + names[0], names[0] + " "]:
-                    tok, q = self.gen_sources(rng, ftype, tier)[2]
+                    tok, q = self.gen_sources(rng, ftype, tier, grid=(kind == "graph" and listed == "grid"))[2]
                     t, qq = self.src_item(tok, q)
                     add("c", kind, [(["set", "a", hx(nm), t], qq), (["set", "a", hx(nm), "R"], [])])
         # 1b. state-dependent pairs: two assignments to the same property (through any of its names) in a row, then read back:
         #     the second value must win whatever state the first one left (e.g. the logarithmic flag of an axis)
         for kind in KINDS:
             for listed, names, ftype in PROPS[kind]:
-                srcs = self.gen_sources(rng, ftype, tier)
+                srcs = self.gen_sources(rng, ftype, tier, grid=(kind == "graph" and listed == "grid"))
                 special = [x for x in srcs if x[0] in ("R", "TN") or (ftype == "intv" and (x[0] == "Vs:" + hx("log") or x[0] in ["T" + hx(t) for t in INTV_TEXTS]))]
                 special += rng.sample(srcs, min(3, len(srcs)))
                 other = rng.sample(srcs, min(6 if quick else 16, len(srcs)))
@@ -446,7 +645,7 @@ class C20(DiffProperty):
                 tg = rng.choice(["a", "b", "b"])
                 if r < 0.55:
                     listed, names, ftype = rng.choice(plist)
-                    tok, q = rng.choice(self.gen_sources(rng, ftype, tier))
+                    tok, q = rng.choice(self.gen_sources(rng, ftype, tier, grid=(kind == "graph" and listed == "grid")))
                     t, qq = self.src_item(tok, q)
                     ops.append((["set", tg, hx(rng.choice(names)), t], qq))
                 elif r < 0.8:
@@ -551,7 +750,120 @@ class C20(DiffProperty):
             add("x", "layout", [(["cset", "a", "alias", hx("qq")], []), (["cset", "a", "lfont", hx("rr")], []), (["cset", "b", "lfont", "-"], []), (["lreset", "a"], []),
                                 (["set", "a", hx("nosuch"), "T31"], []), (["get", "a", hx("fon")], []), (["get", "a", hx("alia")], [])])
             add("x", "text", [(["cset", "a", "value", hx("cd")], []), (["cset", "a", "value", "-"], []), (["cset", "a", "font", "N"], []), (["cset", "a", "font", hx("ff")], [])])
+
+        # 4c. second round of the coverage audit: copy by properties, whole-object query, cycles, transformation limits,
+        #     bind with logger / foreign relation, mpt_lattr_set, layout files
+        def val_items(kind, count, safe=False):
+            """count (name, T token, queries) of properties of the kind with values of the property's own value set"""
+            res = []
+            for _ in range(count):
+                listed, names, ftype = rng.choice(PROPS[kind])
+                srcs = [x for x in self.gen_sources(rng, ftype, tier, grid=(kind == "graph" and listed == "grid")) if x[0][0] == "T" and x[0] != "TN"]
+                if safe:
+                    srcs = [x for x in srcs if self.file_safe(x[0])]
+                if not srcs:
+                    continue
+                tok, q = rng.choice(srcs)
+                t, qq = self.src_item(tok, q)
+                nm = rng.choice(names) if not safe else rng.choice([n for n in names if " " not in n])
+                res.append((nm, t, qq))
+            return res
+        for kind in KINDS:
+            pre = self.prefill(kind)
+            for impl in ("c", "x"):
+                tot_ok = PATCHED_TOTAL_PADDING or kind in ("line", "text")
+                ops = [(["pinfo", "a"], [])] + ([(["tot", "a"], [])] if tot_ok else [])
+                add(impl, kind, ops)
+                if tot_ok:
+                    # a change of any property shows, resetting all of them hides it again
+                    resets = [(["set", "a", hx(names[0]), "R"], []) for _, names, _ in PROPS[kind]]
+                    add(impl, kind, pre + [(["tot", "a"], []), (["tot", "b"], [])] + resets + [(["tot", "a"], []), (["set", "a", "E", "R"], []), (["tot", "a"], [])])
+                    for listed, names, ftype in PROPS[kind]:
+                        for (nm, t, qq) in val_items(kind, 1):
+                            add(impl, kind, [(["set", "a", hx(nm), t], qq), (["tot", "a"], []), (["set", "a", hx(nm), "R"], []), (["tot", "a"], [])])
+            if kind == "graph" and not PATCHED_GRID_BY_VALUE:
+                continue
+            # object::set(const object &): every property by value, with and without logger
+            for lg in ("L", "N"):
+                add("x", kind, pre + [(["oset", "b", lg], []), (["set", "a", "E", "R"], []), (["oset", "b", lg], []), (["oset", "a", lg], [])])
+            for i in range(12 if quick else 200):
+                ops = []
+                for tg in ("a", "b"):
+                    for (nm, t, qq) in val_items(kind, rng.choice([1, 3, 6])):
+                        ops.append((["set", tg, hx(nm), t], qq))
+                    if rng.random() < 0.3:
+                        ops.append((["set", tg, "N", rng.choice(["VL:ff00ff00", "VL:02030405", "VC:80112233", "T" + hx("str")])], []))
+                ops.append((["oset", rng.choice(["a", "b"]), rng.choice(["L", "N"])], []))
+                ops.append((["oset", rng.choice(["a", "b"]), rng.choice(["L", "N"])], []))
+                add("x", kind, ops)
+        add("x", "layout", [(["pinfo", "a"], []), (["tot", "a"], []), (["cset", "a", "alias", hx("al")], []), (["tot", "a"], []), (["oset", "b", "L"], []),
+                            (["cset", "b", "lfont", hx("ff")], []), (["oset", "a", "N"], []), (["tot", "b"], [])])
+        for t in ["hello", "", "x" * 200, "two words", " lead"]:
+            add("x", "text", [(["cset", "a", "tmeta", hx(t)], []), (["cset", "b", "value", hx("old")], []), (["cset", "b", "tmeta", hx(t)], []), (["clone", "b"], [])])
+        add("x", "text", [(["cset", "a", "tmeta", "N"], [])])
+        # graph: cycles of the bound worlds, limits of the transformation, bind with logger / through the other graph's items
+        GNAMES = ["ax", "ay", "wl", "w2", "zz", "p:ax", "q:wl"]
+        for i in range(80 if quick else 2000):
+            ops = []
+            for _ in range(rng.choice([3, 5, 8, 11])):
+                r = rng.random()
+                tg = rng.choice(["a", "a", "b"])
+                if r < 0.3:
+                    ty = rng.choice(["axis", "xaxis", "yaxis", "world", "world", "line", "text", "graph", "bogus"])
+                    prop, val = rng.choice([("N", "T-"), ("int", "Tlog"), ("cyc", "T7"), ("cyc", "T2"), ("begin", "T5"), ("begin", "T-3"), ("end", "T-2.5"), ("end", "T4"),
+                                            ("axes", "Tax"), ("axes", "Tnone"), ("worlds", "Twl"), ("width", "T4"), ("value", "Tvv"), ("x1", "T0.5")])
+                    tok, q = self.text_tok(val[1:], prop in ("begin", "end", "x1")) if val != "T-" else ("T-", None)
+                    t, qq = self.src_item(tok, q)
+                    ops.append((["gitem", tg, hx(ty), rng.choice([hx(n) for n in GNAMES] + ["N"]), "N" if prop == "N" else hx(prop), t], qq))
+                elif r < 0.4:
+                    ops.append((["gadd", tg, rng.choice(["axis", "world"]), rng.choice([hx(n) for n in GNAMES] + ["N"])], []))
+                elif r < 0.55:
+                    nm = rng.choice(["axes", "worlds"])
+                    v = rng.choice(["R", "T" + hx("ax"), "T" + hx("ax ay"), "T" + hx("ay ax"), "T" + hx("wl"), "T" + hx("wl w2"), "T" + hx("no"), "T" + hx("ax."), "T" + hx("p:ax"),
+                                    "T" + hx("ax.b"), "T" + hx("q:wl wl"), "T" + hx("zz ax"), "T" + hx("ax ax")])
+                    ops.append((["set", tg, hx(nm), v], []))
+                elif r < 0.7:
+                    ops.append((["gbind" + rng.choice(["", "l", "o", "o"]), tg], []))
+                elif r < 0.8:
+                    pos = rng.choice([-1, -2, -3, -4] + ([0, 1, 2, 5] if PATCHED_CYCLE_RANGE else []))
+                    ops.append((["gcyc" if rng.random() < 0.7 else "gscyc", tg, str(pos)], []))
+                elif r < 0.9:
+                    ops.append((["gtr", tg], []))
+                elif r < 0.95:
+                    ops.append((["gview", tg], []))
+                else:
+                    ops.append((["clone", tg], []))
+            ops += [(["gbindl", "a"], []), (["gview", "a"], []), (["gtr", "a"], []), (["gcyc", "a", "-1"], []), (["gcyc", "a", "-1"], [])]
+            add("x", "graph", ops)
+        # begin / end of the bound axes across the float order (swapped limits), logarithmic axes
+        for (b, e) in [("5", "1"), ("1", "5"), ("-0", "0"), ("nan", "1"), ("1", "nan"), ("inf", "-inf"), ("1e308", "-1e308"), ("2", "2")]:
+            tb, qb = self.text_tok(b, True)
+            te, qe = self.text_tok(e, True)
+            t1, q1 = self.src_item(tb, qb)
+            t2, q2 = self.src_item(te, qe)
+            add("x", "graph", [(["gitem", "a", hx("axis"), hx("ax"), hx("begin"), t1], q1), (["gbind", "a"], []), (["gtr", "a"], []),
+                               (["gitem", "b", hx("axis"), hx("ax"), hx("end"), t2], q2), (["gbind", "b"], []), (["gtr", "b"], []),
+                               (["gitem", "a", hx("axis"), hx("lg"), hx("int"), "T" + hx("log")], []), (["set", "a", hx("axes"), "T" + hx("lg ax")], []), (["gbindl", "a"], []), (["gtr", "a"], [])])
+        # three dimensions, names with a ':' for worlds as well
+        add("x", "graph", [(["gitem", "a", hx("xaxis"), hx("ax"), "N", "T-"], []), (["gitem", "a", hx("yaxis"), hx("ay"), "N", "T-"], []),
+                           (["gitem", "a", hx("zaxis"), hx("az"), hx("int"), "T" + hx("log")], []), (["gitem", "a", hx("world"), hx("q:wl"), hx("cyc"), "T" + hx("4")], []),
+                           (["gitem", "a", hx("world"), hx("wl"), "N", "T-"], []), (["set", "a", hx("worlds"), "T" + hx("q:wl wl q:wl")], []),
+                           (["gbindl", "a"], []), (["gtr", "a"], []), (["gview", "a"], []), (["gcyc", "a", "-3"], []), (["gcyc", "a", "-1"], []),
+                           (["set", "a", hx("axes"), "T" + hx("az ax")], []), (["gbind", "a"], []), (["gtr", "a"], [])])
+        # layout files
+        for i in range(120 if quick else 3000):
+            add("x", "layout", self.layout_case(rng, val_items))
         cases = self.resolve(items)
+        # 4d. mpt_lattr_set
+        LAT = [-5, -1, 0, 1, 4, 5, 6, 8, 9, 10, 11, 19, 20, 21, 255, 256, 1000, -2147483648, 2147483647]
+        for impl in ("c", "x"):
+            for k in range(4):
+                for v in LAT:
+                    a = [2, 3, 4, 5]
+                    a[k] = v
+                    cases.append("%s lat 1,2,3,4 %d %d %d %d" % (impl, a[0], a[1], a[2], a[3]))
+            for _ in range(20 if quick else 400):
+                cases.append("%s lat %d,%d,%d,%d %d %d %d %d" % ((impl,) + tuple(rng.choice([0, 1, 7, 200]) for _ in range(4)) + tuple(rng.choice(LAT) for _ in range(4))))
         # 5. mpt_property_match: the real tables x every prefix / mlen, and synthetic tables
         for kind in KINDS:
             names = LISTED[kind]
@@ -591,28 +903,50 @@ class C20(DiffProperty):
             "floats incl. inf/nan/overflow/hex, strings of length 0/1/255/256/1000, colour names/#hex forms/malformed, line attribute values, "
             "points; as text through mpt_object_set_string and as typed values through mpt_object_set_value), reset, generic assignment from "
             "the other object / NULL / plain values with NULL and empty name, lookup by every prefix, mpt_object_set_property with every flag "
-            "combination; full property dump of both objects through the public get interface after every operation; separate cases for "
-            "mpt_property_match (real tables x every prefix x mlen) and colour parse/print/parse; a case is non-trivial when it has an operation")
-    modelled = ("mptplot/layout/{axis,line,text,graph,world}_property.c, color_parse.c, color_html.c, color_set.c, lattr_set.c, string_set.c, "
+            "combination, the whole-object query (property \"\") and the query without record; full property dump of both objects through the "
+            "public get interface after every operation; mpt++ objects in addition: constructors with arguments, clone / struct copy, direct "
+            "setters, convert(), object::set(other object) with and without logger (copy by properties), text::set(metatype), graph items / "
+            "add_axis / add_world / bind (plain, with logger, through the other graph's items; names with '.' and ':', graphs among the items) / "
+            "cycles of the bound worlds / transformation limits; class layout: properties, open / load of generated layout files (sections "
+            "with parents, name conflicts, unknown types, graphs with their own items, missing parents / axes, text the parser refuses), "
+            "reload at end of file and after reset, minimal_scale, graph list: the view of every item with its properties is compared; "
+            "separate cases for mpt_property_match (real tables x every prefix x mlen), colour parse/print/parse and mpt_lattr_set; "
+            "a case is non-trivial when it has an operation")
+    modelled = ("mptplot/layout/{axis,line,text,graph,world}_property.c, color_parse.c, color_html.c, color_set.c, lattr_set.c (all of it), string_set.c, "
                 "mptplot/values/fpoint_set.c, mptcore/object/{object_set_string,object_set_value,object_set_property,property_match}.c, "
                 "mptcore/convert/{convert_string,convert_number,convert_int}.c (numerals), mpt++/color.cpp (printer) transcribed in "
-                "coq/C20/LayoutConv.v + LayoutModel.v; mpt++/layout.cpp and graph.cpp objects are covered by correspondence (same model); "
-                "strtof/strtod and integer/float FPU conversions are oracles whose answers are part of the case")
+                "coq/C20/LayoutConv.v + LayoutModel.v; mpt++/layout.cpp, graph.cpp, item_group.cpp and the parts of object.cpp (object::set), "
+                "collection.cpp (add_items, relation search) and cycle.cpp (limit_stages) they use: LayoutCxxModel.v (classes, graph items, bind "
+                "with relations, cycles, transformation limits, copy by properties, text metatype as source) and LayoutLoad.v (layout::load / "
+                "bind / reset / minimal_scale on the entries of a layout file, written once over an abstract object type); "
+                "strtof/strtod and integer/float FPU conversions are oracles whose answers are part of the case; the configuration parser "
+                "that turns the file into entries is C19's (the harness writes the file from the entries of the case, layout::open reads it)")
     trusted = ["harness/c20_probe.c + props/c20.py:probe regenerate coq/C20/Gen_Layout.v (read tables, member layout, defaults) from the tree",
                "harness/c20_oracle.c: libc strtof/strtod and FPU casts as oracle for float text and float images",
-               "string ownership (own copy, no double free, no leak) is observed by ASan/LeakSanitizer in the harness, not proved"]
-    level_text = ("proof: 39 Coq theorems over the transcribed setters/getters for every kind and every settable property, for ALL objects and ALL "
+               "string ownership (own copy, no double free, no leak) is observed by ASan/LeakSanitizer in the harness, not proved",
+               "layout files: harness/c20_cxx.cpp renders the entries of a case as `name = value;` / `type name : parents { }` text; the parser "
+               "(property C19) delivers them back as nodes; values are restricted to visible ASCII without the format's special characters"]
+    level_text = ("proof: 53 Coq theorems over the transcribed setters/getters for every kind and every settable property, for ALL objects and ALL "
                   "sources: every set/reset/assignment step and every mpt_object_set_property call (flags, name modes) is the specification's step "
                   "(C20_set_refines, C20_set_property_refines), histories over all operations from default or constructed objects without hypothesis "
                   "(C20_history_states_from_init), set_get, set_frame, reset_default, refused_unchanged (record level), copy_equal, colour_print_parse, "
                   "prefix_match_unique and C20_match_is_spec, lookup by name/prefix through the regenerated tables incl. the 'differs from default' "
-                  "return value (C20_get_by_name, C20_get_flags), the mpt++ wrappers = the C functions and their constructors meet the invariant "
-                  "(C20_cxx_*), every step of the mpt++ harness language (constructors with arguments, clone / struct copy, direct setters, object as value of a named "
-                  "property, convert(), graph items / bind) on the listed properties (C20_cxx_step_refines, C20_cxx_bind_*), class layout as patched (C20_layout_step_refines), and the finite sweep get_table_fields_disjoint_in_bounds over the regenerated tables; tied to the code by differential execution")
+                  "return value (C20_get_by_name, C20_get_flags), the mpt++ wrappers = the C functions and their constructors meet the invariants "
+                  "(C20_cxx_*), every step of the mpt++ harness language on the listed properties and what it keeps (C20_cxx_step_refines, "
+                  "C20_cxx_step_keeps), copy by properties object::set = the specification's copy (C20_object_set_refines), bind with any relation "
+                  "(C20_cxx_bind_*_rel), reading a layout file = the specification's reading for all well formed entries (C20_load_refines, generic "
+                  "over the object operations, C20_min_scale_refines), the text metatype as source (C20_meta_set_is_value), mpt_lattr_set "
+                  "(C20_lattr_set4_spec), the whole-object query (C20_total_default, C20_total_reports_change), class layout as patched "
+                  "(C20_layout_step_refines), and the finite sweep get_table_fields_disjoint_in_bounds over the regenerated tables; tied to the code "
+                  "by differential execution")
     level_note = ("trusted: Coq kernel; hand transcription validated by the correspondence run; extraction; harness; float parsing by libc oracle; "
-                  "string ownership observed by ASan/LSan only; convert() result tables, graph item lists and clone of the mpt++ classes are mechanism validated by "
-                  "correspondence; class layout and the clearing text setters are modelled as patched by docs/c20_proposed_layout_object.diff and generated only "
-                  "when the tree has the patch; typed values through mpt_object_set_property are not covered")
+                  "string ownership observed by ASan/LSan only; convert() result tables, graph item lists, cycles, transformation limits, clone and the "
+                  "parser / file state of class layout are mechanism validated by correspondence; the model is AS PATCHED for four open patches "
+                  "(docs/C20_grid_by_value.diff, C20_total_padding.diff, C20_cycle_range.diff, C07_convert_string_space.diff), the cases that tell the "
+                  "difference are generated only after the switch PATCHED_* in props/c20.py is set; not proved (correspondence only): that a copy by "
+                  "properties whose every value is accepted shows exactly the source's properties (the per-property get -> set-by-value round trip); "
+                  "typed values through mpt_object_set_property are not covered; not driven: items that are not reference counted "
+                  "(layout::bind / graph::bind copy or skip them), bind with a foreign relation on class layout, allocation failures")
     technique = "Coq proofs over an executable mechanism model + regenerated tables + differential correspondence check"
     assumptions = ["malloc/realloc/strdup succeed", "'C' locale", "libc strtof/strtod correctly rounded (oracle)"]
 
